@@ -484,6 +484,9 @@ unsafe impl<'a, T: FromSpec + Flat + Sized, L: Flat + Length> Emplacer<FlatVec<T
                     6 => vec::FromArray([f(0), f(1), f(2), f(3), f(4), f(5)]).emplace_unchecked(b),
                     7 => vec::FromArray([f(0), f(1), f(2), f(3), f(4), f(5), f(6)]).emplace_unchecked(b),
                     8 => vec::FromArray([f(0), f(1), f(2), f(3), f(4), f(5), f(6), f(7)]).emplace_unchecked(b),
+                    255 => vec::FromArray::<T, 255>(core::array::from_fn(|i| f(i))).emplace_unchecked(b),
+                    256 => vec::FromArray::<T, 256>(core::array::from_fn(|i| f(i))).emplace_unchecked(b),
+                    300 => vec::FromArray::<T, 300>(core::array::from_fn(|i| f(i))).emplace_unchecked(b),
                     n => panic!("FromArray of {} not instantiated", n),
                 }
             }
@@ -972,8 +975,27 @@ fn hist_obs<T: Probe + ?Sized>(a: &Arena) -> String {
             }
         });
         write!(o, " tv={}", tv).unwrap();
+        // the value's own bytes: as_bytes() must lie in the slice, validate, and re-map to the same state
+        // (capacity included: it never changes)
+        let ab = guarded(|| {
+            let ab = x.as_bytes();
+            if ab.as_ptr() != bytes.as_ptr() || ab.len() > bytes.len() {
+                return "OUTSIDE".into();
+            }
+            match T::from_bytes(ab) {
+                Ok(y) => {
+                    if deep_s(y) == view {
+                        "ok".into()
+                    } else {
+                        "DIFFERENT".into()
+                    }
+                }
+                Err(e) => kind_s(&e),
+            }
+        });
+        write!(o, " ab={}", ab).unwrap();
     } else {
-        o.push_str("view=- size=- tv=-");
+        o.push_str("view=- size=- tv=- ab=-");
     }
     write!(o, " buf={}", bytes_to_hex(bytes)).unwrap();
     o
